@@ -741,6 +741,14 @@ func registerLibHooks(e *Engine) {
 		}
 		return out
 	}
+	H["math.Signbit"] = func(st *State, a []Value) Value {
+		x := a[0].(*Term)
+		return mk(SBool, 0, "(fp.isNegative %s)", x.S)
+	}
+	H["math.IsNaN"] = func(st *State, a []Value) Value {
+		x := a[0].(*Term)
+		return mk(SBool, 0, "(fp.isNaN %s)", x.S)
+	}
 	H["runtime.Callers"] = func(st *State, a []Value) Value { return st.E.intTerm(big.NewInt(0), intT) }
 	H["runtime/debug.Stack"] = func(st *State, a []Value) Value { return &SliceV{} }
 	H["(*go/token.FileSet).Position"] = func(st *State, a []Value) Value {
